@@ -40,13 +40,28 @@ func NewTimeSeries(fromTime, untilTime Timestamp, step Duration, values []Value)
 }
 
 // FromTime returns the start time of ts.
-func (ts *TimeSeries) FromTime() Timestamp { return ts.fromTime }
+func (ts *TimeSeries) FromTime() Timestamp {
+	if ts == nil {
+		return 0
+	}
+	return ts.fromTime
+}
 
 // UntilTime returns the end time of ts.
-func (ts *TimeSeries) UntilTime() Timestamp { return ts.untilTime }
+func (ts *TimeSeries) UntilTime() Timestamp {
+	if ts == nil {
+		return 0
+	}
+	return ts.untilTime
+}
 
 // Step returns the duration between points in ts.
-func (ts *TimeSeries) Step() Duration { return ts.step }
+func (ts *TimeSeries) Step() Duration {
+	if ts == nil {
+		return 0
+	}
+	return ts.step
+}
 
 // Points converts ts to points.
 func (ts *TimeSeries) Points() Points {
@@ -131,7 +146,12 @@ func (ts *TimeSeries) DiffPointsExcludeSrcNaN(ts2 *TimeSeries) (Points, Points) 
 }
 
 // Values returns the values in ts.
-func (ts *TimeSeries) Values() []Value { return ts.values }
+func (ts *TimeSeries) Values() []Value {
+	if ts == nil {
+		return nil
+	}
+	return ts.values
+}
 
 // String returns the string representation of ts.
 func (ts *TimeSeries) String() string {
@@ -147,6 +167,11 @@ func (ts *TimeSeries) String() string {
 //
 // AppendTo method implements the AppenderTo interface.
 func (ts *TimeSeries) AppendTo(dst []byte) []byte {
+	if ts == nil {
+		// An absent series (archive not selected or out of the requested
+		// range) is encoded as an all-zero header without values.
+		ts = &TimeSeries{}
+	}
 	dst = ts.fromTime.AppendTo(dst)
 	dst = ts.untilTime.AppendTo(dst)
 	dst = ts.step.AppendTo(dst)
@@ -180,6 +205,11 @@ func (ts *TimeSeries) TakeFrom(src []byte) ([]byte, error) {
 		return nil, err
 	}
 
+	if ts.step == 0 && ts.fromTime == 0 && ts.untilTime == 0 {
+		// an absent series, see AppendTo
+		ts.values = nil
+		return src, nil
+	}
 	if ts.step == 0 {
 		return nil, errors.New("step must not be zero")
 	}
